@@ -37,7 +37,7 @@ Definition render_md (d : list elem) : list text := flat_map render_elem d.
 
 (* the tests a document denotes.  The title is the most recent paragraph or heading: a paragraph is a maximal run of
    consecutive title lines (a heading line, or a line whose first non-blank character is a letter); any other prose
-   line or a blank line ends the run; other code blocks and the front-matter are transparent; a test consumes it. *)
+   line or a blank line ends the run, and so does any code block (text after it is a paragraph of its own); the front-matter is transparent; a test consumes it. *)
 Record tstate := mkTS { ts_para : list text; ts_title : option text }.
 Definition title_line (st : tstate) (line : text) : tstate :=
   match extract_title line with
@@ -50,7 +50,8 @@ Fixpoint md_tests_from (d : list elem) (line : nat) (st : tstate) : list mtest :
   | e :: r =>
     let next := (line + length (render_elem e))%nat in
     match e with
-    | EFront _ | EForeign _ _ _ _ => md_tests_from r next st
+    | EFront _ => md_tests_from r next st
+    | EForeign _ _ _ _ => md_tests_from r next (mkTS [] (ts_title st))
     | EProse l => md_tests_from r next (title_line st l)
     | EHeading k t => md_tests_from r next (title_line st (hashes k ++ [32] ++ t))
     | EBlank => md_tests_from r next (title_line st [])
